@@ -813,6 +813,44 @@ func ruleBuildScopes(p *Program, r *Result) {
 	r.cond(appended && rangedSecrets, "R-ADMIT", key+":providers-in-config-order", p.Pos(build.Pos()),
 		"providers are appended to an ordered slice while ranging the secrets list by index: configuration order is lookup order",
 		"the provider list is not built by appending while ranging the ordered secrets list")
+	// nothing but the provider list is carried from one secret configuration to the next: a map or other container
+	// made before the loop over the configurations and written inside it would let one scope's users, credentials
+	// or handlers show up in another
+	{
+		good := true
+		why := ""
+		// (read with the build's helpers folded in, whichever representation the rest is evaluated on: the write
+		// may sit in a small helper of the container's type)
+		for _, b := range p.localInlined(p.orig(build)).Blocks {
+			if !blockReachFromSelf(b) {
+				continue
+			}
+			for _, in := range b.Instrs {
+				mu, ok := in.(*ssa.MapUpdate)
+				if !ok {
+					continue
+				}
+				var made ssa.Instruction
+				for _, src := range phiSources(mu.Map) {
+					if mk, ok := src.(*ssa.MakeMap); ok {
+						made = mk
+					} else if c, ok := src.(*ssa.Call); ok {
+						made = c
+					} else if _, isParam := src.(*ssa.Parameter); isParam {
+						made = nil
+						good, why = false, "a map handed in from outside is written while building (at "+p.Pos(mu.Pos())+")"
+					}
+				}
+				if made != nil && !blockReachFromSelf(made.Block()) {
+					good = false
+					why = fmt.Sprintf("the map made at %s, before the loop over the secret configurations, is written inside it (at %s)", p.Pos(made.Pos()), p.Pos(mu.Pos()))
+				}
+			}
+		}
+		r.cond(good, "R-ADMIT", key+":no-cross-scope-state", p.Pos(build.Pos()),
+			"no map made outside the loop over the secret configurations is written inside it: nothing of one scope is kept for the next",
+			"state is carried from one secret configuration to the next while building: "+why+" - a user's authenticator, rights or handler of one scope can be handed to another scope")
+	}
 	// the per-scope user map
 	for _, b := range build.Blocks {
 		for _, in := range b.Instrs {
